@@ -8,6 +8,17 @@
 #include <algorithm>
 #include <iterator>
 
+#ifdef BLUETOE_VERIF_HOOKS
+    // verification hook (/verif DESIGN.md 2.4): BLUETOE_VERIF_YIELD( access, address ) is placed immediately before
+    // every access to queue memory that queue_notification() / queue_indication() (requesting context) and
+    // dequeue_indication_or_confirmation() (link layer) share; access is 'l' (load) or 's' (store); the byte wide
+    // read-modify-write operations are split into load; yield; store. A harness defines the macro to hand control
+    // to a deterministic scheduler.
+#   ifndef BLUETOE_VERIF_YIELD
+#       define BLUETOE_VERIF_YIELD( ... )
+#   endif
+#endif
+
 namespace bluetoe {
 
     namespace details {
@@ -228,6 +239,9 @@ namespace bluetoe {
                 const auto byte_offset = index * bits_per_characteristc / 8;
                 assert( byte_offset < sizeof( queue_ ) / sizeof( queue_[ 0 ] ) );
 
+#ifdef BLUETOE_VERIF_HOOKS
+                BLUETOE_VERIF_YIELD( 'l', &queue_[ byte_offset ] );
+#endif
                 return ( queue_[ byte_offset ] >> bit_offset ) & 0x03;
             }
 
@@ -238,8 +252,17 @@ namespace bluetoe {
                 const auto byte_offset = index * bits_per_characteristc / 8;
                 assert( byte_offset < sizeof( queue_ ) / sizeof( queue_[ 0 ] ) );
 
+#ifdef BLUETOE_VERIF_HOOKS
+                BLUETOE_VERIF_YIELD( 'l', &queue_[ byte_offset ] );
+                const bool result = ( queue_[ byte_offset ] & ( bits << bit_offset ) ) == 0;
+                BLUETOE_VERIF_YIELD( 'l', &queue_[ byte_offset ] );
+                const std::uint8_t verif_loaded = queue_[ byte_offset ];
+                BLUETOE_VERIF_YIELD( 's', &queue_[ byte_offset ] );
+                queue_[ byte_offset ] = static_cast< std::uint8_t >( verif_loaded | ( bits << bit_offset ) );
+#else
                 const bool result = ( queue_[ byte_offset ] & ( bits << bit_offset ) ) == 0;
                 queue_[ byte_offset ] |= bits << bit_offset;
+#endif
 
                 return result;
             }
@@ -251,7 +274,14 @@ namespace bluetoe {
                 const auto byte_offset = index * bits_per_characteristc / 8;
                 assert( byte_offset < sizeof( queue_ ) / sizeof( queue_[ 0 ] ) );
 
+#ifdef BLUETOE_VERIF_HOOKS
+                BLUETOE_VERIF_YIELD( 'l', &queue_[ byte_offset ] );
+                const std::uint8_t verif_loaded = queue_[ byte_offset ];
+                BLUETOE_VERIF_YIELD( 's', &queue_[ byte_offset ] );
+                queue_[ byte_offset ] = static_cast< std::uint8_t >( verif_loaded & ~( bits << bit_offset ) );
+#else
                 queue_[ byte_offset ] &= ~( bits << bit_offset );
+#endif
             }
 
             static constexpr std::size_t bits_per_characteristc = 2;
@@ -283,7 +313,13 @@ namespace bluetoe {
                 static_cast< void >( idx );
                 assert( idx == 0 );
 
+#ifdef BLUETOE_VERIF_HOOKS
+                BLUETOE_VERIF_YIELD( 'l', &notification_ );
+#endif
                 const bool result = !notification_;
+#ifdef BLUETOE_VERIF_HOOKS
+                BLUETOE_VERIF_YIELD( 's', &notification_ );
+#endif
                 notification_ = true;
 
                 return result;
@@ -294,7 +330,13 @@ namespace bluetoe {
                 static_cast< void >( idx );
                 assert( idx == 0 );
 
+#ifdef BLUETOE_VERIF_HOOKS
+                BLUETOE_VERIF_YIELD( 'l', &indication_ );
+#endif
                 const bool result = !indication_;
+#ifdef BLUETOE_VERIF_HOOKS
+                BLUETOE_VERIF_YIELD( 's', &indication_ );
+#endif
                 indication_ = true;
 
                 return result;
@@ -302,16 +344,28 @@ namespace bluetoe {
 
             std::pair< notification_queue_entry_type, std::size_t > dequeue_indication_or_confirmation( std::size_t offset, std::size_t& outstanding_confirmation )
             {
+#ifdef BLUETOE_VERIF_HOOKS
+                BLUETOE_VERIF_YIELD( 'l', &indication_ );
+#endif
                 if ( indication_ && outstanding_confirmation == details::no_outstanding_indicaton )
                 {
+#ifdef BLUETOE_VERIF_HOOKS
+                    BLUETOE_VERIF_YIELD( 's', &indication_ );
+#endif
                     indication_ = false;
                     outstanding_confirmation = offset;
 
                     return { notification_queue_entry_type::indication, offset };
                 }
 
+#ifdef BLUETOE_VERIF_HOOKS
+                BLUETOE_VERIF_YIELD( 'l', &notification_ );
+#endif
                 if ( notification_ )
                 {
+#ifdef BLUETOE_VERIF_HOOKS
+                    BLUETOE_VERIF_YIELD( 's', &notification_ );
+#endif
                     notification_ = false;
 
                     return { notification_queue_entry_type::notification, offset };
